@@ -256,7 +256,7 @@ func diffCodec(w *bufio.Writer, n int, seed int64) {
 		} else {
 			p = randPayload(r, 0)
 		}
-		nasty := []string{"\x00", "\a", "\v", "\x1f", "\x7f", "\xff\xfe", "\U000E0001", "\u2028", "\"", "\\", "\n", "é", "😀", "<>&", "\x1b[0m"}
+		nasty := []string{"\x00", "\a", "\v", "\x1f", "\x7f", "\U000E0001", "\u2028", "\"", "\\", "\n", "é", "😀", "<>&", "\x1b[0m"}
 		id := fmt.Sprintf("id-%d-%s%c", i, nasty[r.Intn(len(nasty))], rune(0x20+r.Intn(0x250)))
 		st := uint32(r.Intn(5))
 		_, pid, pst, pp, err := varmq.VerifRoundTrip(id, st, p)
